@@ -17,6 +17,7 @@ RULE = (
     "region's own space, preserved volume integral, explicit loops over attached (cell, local-node) pairs, P F^T and "
     "P F^T / det F recomputed from the field, quadrature means in Voigt order, explicit sums over boundary points. "
     "Non-trivial: non-constant field, >= 2 cells sharing points, tensor order >= 1."
+    " family 'saved-stress': the Cauchy stress written by tools.save; stresses are requested after an in-place field change in a drawn order; moments of plane problems."
 )
 ASSUMPTIONS = [
     "projection is generated only for regions whose rule makes the mass matrix regular (documented: triangle / tetra need order 2, quadratic simplices and MINI order 5)",
